@@ -3055,7 +3055,6 @@ private:
 
         // a term recognized on an empty prefix is not a match: the input would never advance
         ps.current_term_idx = res.len == 0 ? uninitialized16 : res.term_idx;
-        ps.current_end_it = ps.current_it + res.len;
 
         if (ps.current_term_idx == uninitialized16)
         {
@@ -3064,6 +3063,7 @@ private:
         }
         else
         {
+            ps.current_end_it = ps.current_it + res.len;
             trace_recognized_term(ps);
         }
 
